@@ -15,10 +15,12 @@ import (
 	"os"
 	"os/exec"
 	"path/filepath"
+	"runtime"
 	"sort"
 	"strconv"
 	"strings"
 	"sync"
+	"time"
 
 	"github.com/rogpeppe/go-internal/lockedfile"
 
@@ -32,6 +34,8 @@ type hev struct {
 	OK        bool
 	A, B      uint64 // R: A = id read; W: A = id written; T: A = id seen, B = id written
 	Bad       string // non-empty: the bytes read were not a complete payload
+	Round     int    // fresh-* modes: which file of the run (each round uses a file that does not exist yet)
+	Tin, Tout int64  // incr: when the transform function was entered / left (it runs inside the lock)
 }
 
 func (e hev) String() string {
@@ -46,6 +50,18 @@ func histWorker(a []string) {
 	seed, _ := strconv.ParseUint(a[4], 10, 64)
 	mode := a[5]
 	path := filepath.Join(dir, "reg")
+	// fresh-mixed / fresh-incr: <rounds> <startAt> <period>: round r works on a file that does not
+	// exist yet, and every goroutine of every process begins it at the same instant
+	// (CLOCK_MONOTONIC is shared by the processes of one machine): the first calls on the file —
+	// the ones that create it — race with each other
+	fresh := strings.HasPrefix(mode, "fresh-")
+	rounds, startAt, period := 1, int64(0), int64(0)
+	if fresh {
+		mode = strings.TrimPrefix(mode, "fresh-")
+		rounds, _ = strconv.Atoi(a[6])
+		startAt, _ = strconv.ParseInt(a[7], 10, 64)
+		period, _ = strconv.ParseInt(a[8], 10, 64)
+	}
 	var mu sync.Mutex
 	w := bufio.NewWriter(os.Stdout)
 	emit := func(e hev) {
@@ -58,10 +74,13 @@ func histWorker(a []string) {
 		if bad == "" {
 			bad = "-"
 		}
-		fmt.Fprintf(w, "EV %s %d %d %d %d %d %d %d %s\n", e.Op, e.Proc, e.G, e.Inv, e.Resp, ok, e.A, e.B, bad)
+		fmt.Fprintf(w, "EV %s %d %d %d %d %d %d %d %s %d %d %d\n", e.Op, e.Proc, e.G, e.Inv, e.Resp, ok, e.A, e.B, bad, e.Round, e.Tin, e.Tout)
 		mu.Unlock()
 	}
 	idOf := func(b []byte) (uint64, string) {
+		if fresh && len(b) == 0 {
+			return 1, "" // the file has just been created: the initial value of the register
+		}
 		id, ok := payloadID(b)
 		if !ok {
 			return 0, fmt.Sprintf("len=%d:head=%x", len(b), head(b))
@@ -74,9 +93,36 @@ func histWorker(a []string) {
 		go func(g int) {
 			defer wg.Done()
 			r := common.NewRNG(seed*7919 + uint64(proc)*104729 + uint64(g))
-			for it := 0; it < iters; it++ {
+			// the caller's memory: what earlier Reads returned must still be what they returned
+			type kept struct{ got, copy []byte }
+			var keep []kept
+			retained := func() string {
+				for _, k := range keep {
+					if !bytes.Equal(k.got, k.copy) {
+						return fmt.Sprintf("earlier-result-changed:len=%d:was=%x:now=%x", len(k.copy), head(k.copy), head(k.got))
+					}
+				}
+				return ""
+			}
+			for it0 := 0; it0 < iters*rounds; it0++ {
+				it := it0
+				path := path
+				round := 0
+				if fresh {
+					round = it0 / iters
+					path = filepath.Join(dir, fmt.Sprintf("reg%d", round))
+					if it0%iters == 0 {
+						at := startAt + int64(round)*period
+						if d := at - monoNow(); d > int64(2*time.Millisecond) {
+							time.Sleep(time.Duration(d) - 2*time.Millisecond)
+						}
+						for monoNow() < at {
+							runtime.Gosched()
+						}
+					}
+				}
 				id := (uint64(proc+1)<<40 | uint64(g)<<28 | uint64(it)) + 100
-				e := hev{Proc: proc, G: g}
+				e := hev{Proc: proc, G: g, Round: round}
 				if mode == "append" {
 					// the counter is the file length; t returns append(old, '+'), which writes
 					// into its argument's spare capacity (the result aliases the argument),
@@ -110,7 +156,12 @@ func histWorker(a []string) {
 					e.Op = "I"
 					e.Inv = monoNow()
 					err := lockedfile.Transform(path, func(old []byte) ([]byte, error) {
+						e.Tin = monoNow()
+						defer func() { runtime.Gosched(); e.Tout = monoNow() }()
 						n, perr := strconv.ParseUint(string(bytes.TrimSpace(old)), 10, 64)
+						if fresh && len(old) == 0 {
+							n, perr = 0, nil // just created
+						}
 						if perr != nil {
 							e.Bad = fmt.Sprintf("len=%d:head=%x", len(old), head(old))
 						}
@@ -132,6 +183,10 @@ func histWorker(a []string) {
 					e.OK = err == nil
 					if err == nil {
 						e.A, e.Bad = idOf(b)
+						if len(keep) >= 6 {
+							keep = keep[1:]
+						}
+						keep = append(keep, kept{b, append([]byte{}, b...)})
 					}
 				case k < 7:
 					e.Op = "W"
@@ -165,6 +220,9 @@ func histWorker(a []string) {
 					e.Resp = monoNow()
 					e.OK = err == nil
 				}
+				if e.Bad == "" {
+					e.Bad = retained()
+				}
 				emit(e)
 			}
 		}(g)
@@ -175,12 +233,25 @@ func histWorker(a []string) {
 
 // runHist runs the workers and returns the merged history.
 func runHist(self, work, mode string, procs, gor, iters int, seed uint64, initial []byte) (evs []hev, final []byte, err error) {
+	evs, finals, err := runHistRounds(self, work, mode, procs, gor, iters, seed, initial, 0)
+	if len(finals) > 0 {
+		final = finals[0]
+	}
+	return evs, final, err
+}
+
+// runHistRounds: rounds > 0 = a fresh-* mode: no file exists at the start, round r uses reg<r>.
+func runHistRounds(self, work, mode string, procs, gor, iters int, seed uint64, initial []byte, rounds int) (evs []hev, finals [][]byte, err error) {
 	dir, err := os.MkdirTemp(work, "hist")
 	if err != nil {
 		return nil, nil, err
 	}
 	defer os.RemoveAll(dir)
-	if err := os.WriteFile(filepath.Join(dir, "reg"), initial, 0o666); err != nil {
+	var extra []string
+	if rounds > 0 {
+		// the workers need time to start; then one round every 20 ms
+		extra = []string{fmt.Sprint(rounds), fmt.Sprint(monoNow() + int64(300*time.Millisecond)), fmt.Sprint(int64(20 * time.Millisecond))}
+	} else if err := os.WriteFile(filepath.Join(dir, "reg"), initial, 0o666); err != nil {
 		return nil, nil, err
 	}
 	var mu sync.Mutex
@@ -191,7 +262,7 @@ func runHist(self, work, mode string, procs, gor, iters int, seed uint64, initia
 			defer wg.Done()
 			ctx, cancel := context.WithTimeout(context.Background(), workerDeadline)
 			defer cancel()
-			cmd := exec.CommandContext(ctx, self, "helper", "hist", dir, fmt.Sprint(pr), fmt.Sprint(gor), fmt.Sprint(iters), fmt.Sprint(seed), mode)
+			cmd := exec.CommandContext(ctx, self, append([]string{"helper", "hist", dir, fmt.Sprint(pr), fmt.Sprint(gor), fmt.Sprint(iters), fmt.Sprint(seed), mode}, extra...)...)
 			cmd.Stderr = os.Stderr
 			out, e := cmd.Output()
 			mu.Lock()
@@ -201,7 +272,7 @@ func runHist(self, work, mode string, procs, gor, iters int, seed uint64, initia
 			}
 			for _, l := range strings.Split(string(out), "\n") {
 				f := strings.Fields(l)
-				if len(f) != 10 || f[0] != "EV" {
+				if len(f) != 13 || f[0] != "EV" {
 					continue
 				}
 				var e hev
@@ -216,14 +287,25 @@ func runHist(self, work, mode string, procs, gor, iters int, seed uint64, initia
 				if f[9] != "-" {
 					e.Bad = f[9]
 				}
+				e.Round, _ = strconv.Atoi(f[10])
+				e.Tin, _ = strconv.ParseInt(f[11], 10, 64)
+				e.Tout, _ = strconv.ParseInt(f[12], 10, 64)
 				evs = append(evs, e)
 			}
 		}(pr)
 	}
 	wg.Wait()
-	final, _ = os.ReadFile(filepath.Join(dir, "reg"))
+	if rounds > 0 {
+		for r := 0; r < rounds; r++ {
+			b, _ := os.ReadFile(filepath.Join(dir, fmt.Sprintf("reg%d", r)))
+			finals = append(finals, b)
+		}
+	} else {
+		b, _ := os.ReadFile(filepath.Join(dir, "reg"))
+		finals = [][]byte{b}
+	}
 	sort.Slice(evs, func(i, j int) bool { return evs[i].Inv < evs[j].Inv })
-	return evs, final, err
+	return evs, finals, err
 }
 
 type histFinding struct {
@@ -283,6 +365,10 @@ func checkRegister(evs []hev, initID uint64, final []byte) []histFinding {
 		}
 	}
 	for _, e := range evs {
+		if strings.HasPrefix(e.Bad, "earlier-result-changed") {
+			add("earlier-result-changed", "the bytes an earlier Read had returned to this goroutine were modified by a later call (a result must stay exactly the contents left by one Write/Transform): "+e.Bad, e)
+			continue
+		}
 		var seen uint64
 		switch {
 		case e.Op == "R" && e.OK:
@@ -434,4 +520,23 @@ func checkIncr(evs []hev, final []byte, mode string) []histFinding {
 		out = out[:8]
 	}
 	return out
+}
+
+// checkInside: the transform function runs between the return of the locking call and Close, so
+// the intervals during which two calls on one file were inside it must not intersect
+// (CLOCK_MONOTONIC is common to the processes; each interval lies strictly inside its lock).
+func checkInside(evs []hev) []histFinding {
+	var in []hev
+	for _, e := range evs {
+		if e.Tin != 0 && e.Tout != 0 {
+			in = append(in, e)
+		}
+	}
+	sort.Slice(in, func(i, j int) bool { return in[i].Tin < in[j].Tin })
+	for i := 1; i < len(in); i++ {
+		if in[i].Tin < in[i-1].Tout {
+			return []histFinding{{"two-inside", fmt.Sprintf("two write-locking calls on one file were between return and Close together: one from %d to %d, the other entered at %d", in[i-1].Tin, in[i-1].Tout, in[i].Tin), []hev{in[i-1], in[i]}}}
+		}
+	}
+	return nil
 }
